@@ -148,6 +148,21 @@ def make_math(obj: dict, bounds):
                     bad = False
             return math.inf if bad else s
 
+    elif fam == "nanzone":
+        # undefined (NaN) in a corner region - used only where a claim is about code that must not compare individuals at all
+        frac = float(obj.get("frac", 0.5))
+
+        def g(x):
+            xs = x.tolist()
+            s = 0.0
+            bad = True
+            for i in rng:
+                z = (xs[i] - c[i]) / R[i]
+                s += z * z
+                if (xs[i] - lo[i]) / R[i] > frac:
+                    bad = False
+            return math.nan if bad else s
+
     elif fam == "pit":
         # a small region in which the value is infinite in the *good* direction (legal, if degenerate)
         rad = float(obj.get("rad", 0.15))
@@ -246,6 +261,8 @@ def gen_objective(rng, d: int, fam: str | None = None) -> dict:
         obj["scale"] = rng.choice([1e-11, 1e-12, 1e-13])
     elif fam == "penalty":
         obj["frac"] = rng.choice([0.25, 0.4])
+    elif fam == "nanzone":
+        obj["frac"] = rng.choice([0.8, 0.85, 0.9])
     elif fam == "offset":
         obj["off"] = rng.choice([1e6, 1e9, -1e9])
     elif fam == "pit":
